@@ -23,9 +23,12 @@ def suggest_chain(ctx, rule):
     def test_of(pred):
         return [t for t in g.stmt_nodes() if t.kind == "test" and pred(t.expr)]
     t_reuse = test_of(lambda e: isinstance(e, ast.Compare) and isinstance(e.ops[0], (ast.In, ast.NotIn)) and norm(e.comparators[0]).endswith(".distributions"))
-    t_fixed = test_of(lambda e: any(isinstance(x, ast.Call) and self_attr(x.func) == "_is_fixed_param" for x in ast.walk(e)))
+    def _calls(x, name):
+        """`self.<name>(..)` or, when the helper was moved out of the class, `<name>(self, ..)`"""
+        return isinstance(x, ast.Call) and (self_attr(x.func) == name or (isinstance(x.func, ast.Name) and x.func.id == name))
+    t_fixed = test_of(lambda e: any(_calls(x, "_is_fixed_param") for x in ast.walk(e)))
     t_single = test_of(lambda e: any(isinstance(x, ast.Call) and isinstance(x.func, ast.Attribute) and x.func.attr == "single" for x in ast.walk(e)))
-    t_rel = test_of(lambda e: any(isinstance(x, ast.Call) and self_attr(x.func) == "_is_relative_param" for x in ast.walk(e)))
+    t_rel = test_of(lambda e: any(_calls(x, "_is_relative_param") for x in ast.walk(e)))
     if not t_reuse:
         ctx.fail(R, f.short, "reuse-first", "_suggest no longer tests whether the parameter was already suggested in this trial "
                  "(`name in trial.distributions`): asking for the same name again would return a new value")
@@ -74,13 +77,14 @@ def fixed_iff_rule(ctx, rule):
     p = ctx.program
     tcls = p.cls(TRIAL)
     # _is_fixed_param: True whenever the name is fixed
-    f = tcls.methods.get("_is_fixed_param")
+    f = tcls.methods.get("_is_fixed_param") or p.funcs.get(tcls.module.name + "._is_fixed_param")
     ctx.require(f is not None, f"{rule}: _is_fixed_param vanished")
+    recv = f.params()[0] if f.params() else "self"  # `self`, or the trial parameter of a module-level helper
     g = CFG(f.node, name=f.qualname)
 
     def atom_in_fixed(e):
         a = cmp_atom(e)
-        if a and a[0] == "name" and a[2] == "self._fixed_params":
+        if a and a[0] == "name" and a[2] == recv + "._fixed_params":
             return True if a[1] is ast.In else (False if a[1] is ast.NotIn else None)
         return None
     acc_in = []
